@@ -47,8 +47,11 @@ def render(descrs):
     return dict(zip(descrs, lines))
 
 
+GET = "G"      # stream item: an HTTP client asks for the unit's pages at this point (no read event)
+
+
 class Stream:
-    """flat list of items: int (a byte) or str (an error kind)."""
+    """flat list of items: int (a byte), str (an error kind) or GET."""
 
     def __init__(self, items=None):
         self.items = list(items or [])
@@ -75,6 +78,8 @@ class Stream:
                     return frames, "end"
                 x = it[i]
                 i += 1
+                if x == GET:
+                    continue
                 if isinstance(x, str):
                     if x not in NONFATAL and stop_at_fatal:
                         return frames, "fatal"
@@ -102,6 +107,8 @@ class Stream:
                     return frames, "end"
                 x = it[i]
                 i += 1
+                if x == GET:
+                    continue
                 if isinstance(x, str):
                     if x not in NONFATAL and stop_at_fatal:
                         return frames, "fatal"
@@ -125,7 +132,10 @@ class Stream:
                 out.append("B " + b[:n].hex())
                 b = b[n:]
         for x in self.items:
-            if isinstance(x, str):
+            if x == GET:
+                flush()
+                out.append("G")
+            elif isinstance(x, str):
                 flush()
                 out.append("E " + x)
             else:
@@ -212,6 +222,15 @@ def classify(case, out):
         ks.append("has-read-error")
     if "Z hang" in case:
         ks.append("unit-shutdown")
+    gs = [x for x in t if x.startswith("g:")]
+    if any(x != "g:-" for x in gs):
+        ks.append("pages-asked")
+    if "g:-" in gs:
+        ks.append("pages-asked-too-late")
+    if any(",e10," in x for x in gs):
+        ks.append("page-lists-10-parse-errors")
+    if "=RB." in case:
+        ks.append("updates-from-c04-encoder")
     if out.strip() == "HUGE":
         ks.append("huge-skipped")
     return ks
@@ -226,6 +245,8 @@ def stream_of_case(case):
             s.add_hex(t[1])
         elif len(t) == 2 and t[0] == "E":
             s.add_err(t[1])
+        elif t == ["G"]:
+            s.items.append(GET)
     return s
 
 
